@@ -14,3 +14,4 @@ import PC.Props.C11
 import PC.Props.C17
 import PC.Props.C13
 import PC.Props.C14
+import PC.Props.C15
